@@ -133,6 +133,7 @@ def seeds():
         st = r.get("status", "not swept yet")
         if st == "caught" and r.get("no_failing_input"):
             st = "caught (no-failing-input-found)"
+        st += f" @{r['swept_on_repo_commit']}" if r.get("swept_on_repo_commit") else (" (on an earlier tree)" if r else "")
         by = "; ".join(f"`{x}`" for x in r.get("failed_obligations", [])[:2]).replace("|", "/")
         rows.append(f"| {sid} | {summ} | {st} | {by} | {FIRST_CONTACT.get(sid, 'caught')} |")
     return "\n".join(rows)
